@@ -49,18 +49,19 @@ var guardOfRecv = map[string]string{
 var guardedExtra = map[string]bool{"deliverMessage": true}
 
 type analysis struct {
-	l       *Loader
-	pkgs    []*Pkg
-	funcs   []*Func
-	byObj   map[*types.Func]*Func
-	byLit   map[*ast.FuncLit]*Func
-	named   []*types.Named // named non-interface types of the analysed packages
-	parents map[ast.Node]ast.Node
-	encl    map[ast.Node]*Func // enclosing function of value occurrences (filled lazily)
-	escaped []*Func            // functions used as values
-	escSet  map[*Func]bool
-	classes set
-	nDyn    int
+	viaIface bool // set by resolve: the callees are the implementations of an interface method
+	l        *Loader
+	pkgs     []*Pkg
+	funcs    []*Func
+	byObj    map[*types.Func]*Func
+	byLit    map[*ast.FuncLit]*Func
+	named    []*types.Named // named non-interface types of the analysed packages
+	parents  map[ast.Node]ast.Node
+	encl     map[ast.Node]*Func // enclosing function of value occurrences (filled lazily)
+	escaped  []*Func            // functions used as values
+	escSet   map[*Func]bool
+	classes  set
+	nDyn     int
 }
 
 func relName(l *Loader, pkg *types.Package) string {
@@ -419,6 +420,7 @@ func (a *analysis) checkCondConstructors() error {
 //	dyn            : call through a function value (or an interface without implementation here)
 //	ext            : qualified name of an external function/method (for the few that matter)
 func (a *analysis) resolve(w *walker, c *ast.CallExpr) (callees []*Func, dyn bool, ext string) {
+	a.viaIface = false
 	fun := ast.Unparen(c.Fun)
 	if tv, ok := w.info.Types[fun]; ok && tv.IsType() {
 		return nil, false, "" // conversion
@@ -453,6 +455,7 @@ func (a *analysis) resolve(w *walker, c *ast.CallExpr) (callees []*Func, dyn boo
 				if it, ok := sig.Recv().Type().Underlying().(*types.Interface); ok {
 					impls := a.implementations(it, obj.Name())
 					if len(impls) > 0 {
+						a.viaIface = true
 						return impls, false, ""
 					}
 					if obj.Pkg() != nil && a.l.isRepoPath(obj.Pkg().Path()) {
@@ -668,26 +671,106 @@ func genLocks(l *Loader) (content string, summaryLine string, err error) {
 		return "", "", err
 	}
 	a.findEscaped()
-	// local walks until the summaries are stable
-	for round := 0; ; round++ {
-		if round > 12 {
-			return "", "", fmt.Errorf("function summaries do not stabilise")
+	// Pre-pass: one walk of every function to learn the call edges (static, interface-resolved,
+	// by-signature candidates, deferred and handed-over function values).
+	for _, f := range a.funcs {
+		if f.body != nil {
+			a.walkFunc(f)
 		}
-		changed := false
-		for _, f := range a.funcs {
-			if f.body == nil {
-				continue
+	}
+	sccs := a.sccOrder()
+	// Summaries are then computed bottom-up over the strongly connected components of the call
+	// graph (callees first); inside a component the iteration starts from "no net effect".
+	empty := func() summary {
+		return summary{valid: true, acqMay: set{}, acqMust: set{}, relMay: set{}, relMust: set{}}
+	}
+	for _, f := range a.funcs {
+		f.sumAll, f.sumNormal, f.sumErr = empty(), empty(), summary{}
+	}
+	for _, comp := range sccs {
+		for round := 0; ; round++ {
+			if round > 20 {
+				return "", "", fmt.Errorf("function summaries do not stabilise in the component of %s", comp[0].name)
 			}
-			if a.walkFunc(f) {
-				changed = true
+			changed := false
+			for _, f := range comp {
+				if f.body != nil && a.walkFunc(f) {
+					changed = true
+				}
+			}
+			if !changed {
+				break
 			}
 		}
-		if !changed {
-			break
+	}
+	// final walk with the final summaries (events and snapshots used below)
+	for _, f := range a.funcs {
+		if f.body != nil && a.walkFunc(f) {
+			return "", "", fmt.Errorf("summary of %s changed after the bottom-up pass", f.name)
 		}
 	}
 	a.propagateMay()
 	a.propagateMust()
 	a.debugDump()
 	return a.output()
+}
+
+// sccOrder: strongly connected components of the call graph in reverse topological order
+// (callees before callers), deterministic.
+func (a *analysis) sccOrder() [][]*Func {
+	succ := map[*Func][]*Func{}
+	for _, f := range a.funcs {
+		seen := map[*Func]bool{}
+		for i := range f.events {
+			for _, g := range f.events[i].callees {
+				if !seen[g] {
+					seen[g] = true
+					succ[f] = append(succ[f], g)
+				}
+			}
+		}
+	}
+	index := map[*Func]int{}
+	low := map[*Func]int{}
+	on := map[*Func]bool{}
+	var stack []*Func
+	var out [][]*Func
+	n := 0
+	var strong func(v *Func)
+	strong = func(v *Func) {
+		n++
+		index[v], low[v] = n, n
+		stack = append(stack, v)
+		on[v] = true
+		for _, w := range succ[v] {
+			if index[w] == 0 {
+				strong(w)
+				if low[w] < low[v] {
+					low[v] = low[w]
+				}
+			} else if on[w] && index[w] < low[v] {
+				low[v] = index[w]
+			}
+		}
+		if low[v] == index[v] {
+			var comp []*Func
+			for {
+				w := stack[len(stack)-1]
+				stack = stack[:len(stack)-1]
+				on[w] = false
+				comp = append(comp, w)
+				if w == v {
+					break
+				}
+			}
+			sort.Slice(comp, func(i, j int) bool { return comp[i].name < comp[j].name })
+			out = append(out, comp)
+		}
+	}
+	for _, f := range a.funcs {
+		if index[f] == 0 {
+			strong(f)
+		}
+	}
+	return out
 }
